@@ -121,6 +121,7 @@ func (h *Handler) handleRequest(host *packet.Host, p packet.DHCP4, options packe
 	}
 
 	lease := h.findOrCreate(clientID, p.CHAddr(), nameEntry.Name)
+	taken := h.taken(lease, reqIP) // before the session learns reqIP from this request
 
 	// Main switch
 	switch operation {
@@ -148,7 +149,8 @@ func (h *Handler) handleRequest(host *packet.Host, p packet.DHCP4, options packe
 			return nil // request not for us - silently discard packet
 		}
 
-		if !bytes.Equal(lease.Addr.MAC, p.CHAddr()) || // invalid hardware
+		if lease.State == StateFree || taken || // unknown or expired lease; address in use
+			!bytes.Equal(lease.Addr.MAC, p.CHAddr()) || // invalid hardware
 			(lease.State == StateDiscover && (!bytes.Equal(lease.XID, p.XId()) || lease.IPOffer != reqIP)) || // invalid discover request
 			(lease.State == StateAllocated && lease.Addr.IP != reqIP) { // invalid request - iphone send duplicate select packets - let it pass
 			Logger.Msg("request NACK - select invalid parameters").ByteArray("xid", p.XId()).ByteArray("lxid", lease.XID).IP("leaseIP", lease.Addr.IP).Write()
@@ -161,7 +163,7 @@ func (h *Handler) handleRequest(host *packet.Host, p packet.DHCP4, options packe
 	case renewing:
 		// If renewing then this packet was unicast to us and the client
 		// previously acquired an address from us.
-		if lease.State != StateAllocated ||
+		if lease.State != StateAllocated || taken ||
 			lease.Addr.IP != reqIP || !bytes.Equal(lease.Addr.MAC, p.CHAddr()) ||
 			lease.DHCPExpiry.Before(time.Now()) {
 			Logger.Msg("request NACK - renew invalid or expired lease").ByteArray("xid", p.XId()).IP("gw", subnet.DefaultGW).Write()
@@ -196,7 +198,7 @@ func (h *Handler) handleRequest(host *packet.Host, p packet.DHCP4, options packe
 			}
 		}
 
-		if lease.State != StateAllocated ||
+		if lease.State != StateAllocated || taken ||
 			lease.Addr.IP != reqIP || !bytes.Equal(lease.Addr.MAC, p.CHAddr()) ||
 			!subnet.LAN.Contains(lease.Addr.IP) {
 			Logger.Msg("request NACK - rebooting").ByteArray("xid", p.XId()).IP("ip", reqIP).Write()
